@@ -1,6 +1,7 @@
 ------------------------- MODULE SegmentRewriteTrace -------------------------
 (* {ev:"media", bug_saio, obs:{wf,trun_target,payload_start,sizes_ok,payload_ok,has_senc,saio_target,senc_first,senc_n_ok,       *)
 (*   has_sidx, nemsg, piff_expected, has_piff}}                                                                                    *)
+(* {ev:"init_refused", url, status, rep, mode}                                                                                     *)
 (* {ev:"init", mode, encrypted, want_pssh:[system ids as strings], obs:{wf, same_except, pssh:[..], mehd_removed, had_mehd}}        *)
 EXTENDS SegmentRewrite, TLC, Json, IOUtils, FiniteSets
 TraceLog == ndJsonDeserialize(IOEnv.TRACE_FILE)
@@ -31,7 +32,10 @@ CheckInit(t) ==
     /\ Report("C10_MehdRemovedInLiveOnly", o.mehd_removed = (IF t.mode = "live" /\ o.had_mehd = 1 THEN 1 ELSE 0),
               [mode |-> t.mode, removed |-> o.mehd_removed, had |-> o.had_mehd])
     /\ Report("C10_ClearUntouched", (t.encrypted = 0) => Len(o.pssh) = 0, 0)
-Check(t) == IF t.ev = "media" THEN CheckMedia(t) ELSE IF t.ev = "init" THEN CheckInit(t) ELSE TRUE
+\* an initialization segment of a stored representation, requested with a DRM selection the service accepts, is answered
+Check(t) == IF t.ev = "media" THEN CheckMedia(t) ELSE IF t.ev = "init" THEN CheckInit(t)
+            ELSE IF t.ev = "init_refused" THEN Report("C10_InitServed", FALSE, [status |-> t.status])
+            ELSE TRUE
 TraceInit == l = 1
 TraceNext == l <= Len(TraceLog) /\ Check(TraceLog[l]) /\ l' = l + 1
 TraceSpec == TraceInit /\ [][TraceNext]_l
